@@ -269,10 +269,23 @@ func ruleNoNegativeZero(w *World, r *RuleResult) {
 	for _, name := range w.Names {
 		f := w.Funcs[name]
 		res := f.Signature.Results()
-		if f.Signature.Recv() != nil || res.Len() != 3 || !strings.HasSuffix(name, "Inline") {
+		if f.Signature.Recv() != nil || res.Len() < 3 || !strings.HasSuffix(name, "Inline") {
 			continue
 		}
-		if b, ok := res.At(1).Type().Underlying().(*types.Basic); !ok || b.Kind() != types.Bool {
+		// results: one or more (magnitude uint64, neg bool) pairs followed by ok bool
+		basicKind := func(i int) types.BasicKind {
+			if b, ok := res.At(i).Type().Underlying().(*types.Basic); ok {
+				return b.Kind()
+			}
+			return types.Invalid
+		}
+		var pairs []int
+		for i := 0; i+1 < res.Len()-1; i++ {
+			if basicKind(i) == types.Uint64 && basicKind(i+1) == types.Bool {
+				pairs = append(pairs, i)
+			}
+		}
+		if len(pairs) == 0 || basicKind(res.Len()-1) != types.Bool {
 			continue
 		}
 		key := name + " | sign of a zero result"
@@ -284,21 +297,23 @@ func ruleNoNegativeZero(w *World, r *RuleResult) {
 				continue
 			}
 			// failure returns (ok=false) do not deliver a value
-			if k, isK := rt.Results[2].(*ssa.Const); isK && k.Value != nil && !boolConst(k) {
+			if k, isK := rt.Results[res.Len()-1].(*ssa.Const); isK && k.Value != nil && !boolConst(k) {
 				continue
 			}
 			nret++
-			mag, neg := rt.Results[0], rt.Results[1]
-			if k, isK := neg.(*ssa.Const); isK && !boolConst(k) {
-				continue
+			for _, pi := range pairs {
+				mag, neg := rt.Results[pi], rt.Results[pi+1]
+				if k, isK := neg.(*ssa.Const); isK && !boolConst(k) {
+					continue
+				}
+				if w.negConditionedOnMagnitude(f, neg, mag, b) {
+					continue
+				}
+				if name == "addInline" && w.sameSignSum(f, rt) {
+					continue
+				}
+				bad = append(bad, fmt.Sprintf("return at %s: neg = %s is not conditioned on the magnitude %s being non-zero", w.instrPos(rt), short(w.exprOf(f, neg).String(), 120), short(w.exprOf(f, mag).String(), 80)))
 			}
-			if w.negConditionedOnMagnitude(f, neg, mag, b) {
-				continue
-			}
-			if name == "addInline" && w.sameSignSum(f, rt) {
-				continue
-			}
-			bad = append(bad, fmt.Sprintf("return at %s: neg = %s is not conditioned on the magnitude %s being non-zero", w.instrPos(rt), short(w.exprOf(f, neg).String(), 120), short(w.exprOf(f, mag).String(), 80)))
 		}
 		if len(bad) > 0 {
 			r.bad(key, w.pos(f.Pos()), "a zero magnitude can be returned with neg=true (negative zero, Sign() == -1): "+strings.Join(bad, "; "))
